@@ -91,10 +91,10 @@ fn clif_histogram(lines: &[&str]) -> BTreeMap<String, u64> {
     h
 }
 
-pub fn run_worker(case_file: &Path, set: &ToggleSet) -> Result<WorkerOut, String> {
+fn worker_command(mode: &str, set: &ToggleSet) -> Result<Command, String> {
     let exe = std::env::current_exe().map_err(|e| e.to_string())?;
     let mut c = Command::new(exe);
-    c.arg("c03-worker").arg(case_file).current_dir(vcore::util::work_root()).stdin(Stdio::null()).stdout(Stdio::piped());
+    c.arg(mode).current_dir(vcore::util::work_root()).stdout(Stdio::piped());
     if std::env::var("C03_WORKER_STDERR").is_ok() {
         c.stderr(Stdio::inherit());
     } else {
@@ -107,6 +107,43 @@ pub fn run_worker(case_file: &Path, set: &ToggleSet) -> Result<WorkerOut, String
         c.env(k, v);
     }
     c.env("VERYL_AOT_CACHE_DIR", aot_dir());
+    Ok(c)
+}
+
+fn worker_limit() -> Duration {
+    Duration::from_secs(std::env::var("C03_WORKER_TIMEOUT").ok().and_then(|s| s.parse().ok()).unwrap_or(240))
+}
+
+fn parse_worker_output<'a>(lines: impl Iterator<Item = &'a str>) -> Result<WorkerOut, String> {
+    let mut result = None;
+    let mut clif: BTreeMap<String, BTreeMap<String, u64>> = BTreeMap::new();
+    let mut cur: Option<(String, Vec<&str>)> = None;
+    let mut panic = None;
+    for l in lines {
+        if let Some(k) = l.strip_prefix(CLIF_BEGIN) {
+            cur = Some((k.trim().to_string(), vec![]));
+        } else if l.starts_with(CLIF_END) {
+            if let Some((k, ls)) = cur.take() {
+                clif.insert(k, clif_histogram(&ls));
+            }
+        } else if let Some(j) = l.strip_prefix(RESULT_MARK) {
+            result = serde_json::from_str::<Value>(j).ok();
+        } else if l.starts_with("@@C03 WORKER-PANIC") {
+            panic = Some(l.to_string());
+        } else if let Some((_, ls)) = cur.as_mut() {
+            ls.push(l);
+        }
+    }
+    match result {
+        Some(result) => Ok(WorkerOut { result, clif }),
+        None => Err(panic.unwrap_or_else(|| "worker printed no result".into())),
+    }
+}
+
+/// One-shot worker: a fresh process for one case under `set`.
+pub fn run_worker(case_file: &Path, set: &ToggleSet) -> Result<WorkerOut, String> {
+    let mut c = worker_command("c03-worker", set)?;
+    c.arg(case_file).stdin(Stdio::null());
     let mut child = c.spawn().map_err(|e| format!("spawn: {e}"))?;
     let mut so = child.stdout.take().unwrap();
     let reader = std::thread::spawn(move || {
@@ -114,7 +151,7 @@ pub fn run_worker(case_file: &Path, set: &ToggleSet) -> Result<WorkerOut, String
         let _ = so.read_to_end(&mut b);
         String::from_utf8_lossy(&b).into_owned()
     });
-    let limit = Duration::from_secs(std::env::var("C03_WORKER_TIMEOUT").ok().and_then(|s| s.parse().ok()).unwrap_or(180));
+    let limit = worker_limit();
     let start = Instant::now();
     let status = loop {
         match child.try_wait() {
@@ -137,26 +174,135 @@ pub fn run_worker(case_file: &Path, set: &ToggleSet) -> Result<WorkerOut, String
         let why = out.lines().find(|l| l.starts_with("@@C03 WORKER-PANIC")).unwrap_or("").to_string();
         return Err(format!("worker died (code {:?}, signal {:?}) {why}", status.code(), status.signal()));
     }
-    let mut result = None;
-    let mut clif: BTreeMap<String, BTreeMap<String, u64>> = BTreeMap::new();
-    let mut cur: Option<(String, Vec<&str>)> = None;
-    for l in out.lines() {
-        if let Some(k) = l.strip_prefix(CLIF_BEGIN) {
-            cur = Some((k.trim().to_string(), vec![]));
-        } else if l.starts_with(CLIF_END) {
-            if let Some((k, ls)) = cur.take() {
-                clif.insert(k, clif_histogram(&ls));
+    parse_worker_output(out.lines())
+}
+
+/// A long-lived worker process of one fixed toggle set (`c03-serve`): it is
+/// handed case files one at a time.  Saves the process start-up per case; the
+/// switches are still per process.
+struct Server {
+    child: std::process::Child,
+    stdin: std::process::ChildStdin,
+    rx: std::sync::mpsc::Receiver<String>,
+    served: usize,
+}
+
+impl Server {
+    fn spawn(set: &ToggleSet) -> Result<Server, String> {
+        let mut c = worker_command("c03-serve", set)?;
+        c.stdin(Stdio::piped());
+        let mut child = c.spawn().map_err(|e| format!("spawn: {e}"))?;
+        let stdin = child.stdin.take().unwrap();
+        let so = child.stdout.take().unwrap();
+        let (tx, rx) = std::sync::mpsc::channel();
+        std::thread::spawn(move || {
+            use std::io::BufRead;
+            let r = std::io::BufReader::new(so);
+            for l in r.split(b'\n') {
+                let Ok(l) = l else { break };
+                if tx.send(String::from_utf8_lossy(&l).into_owned()).is_err() {
+                    break;
+                }
             }
-        } else if let Some(j) = l.strip_prefix(RESULT_MARK) {
-            result = serde_json::from_str::<Value>(j).ok();
-        } else if let Some((_, ls)) = cur.as_mut() {
-            ls.push(l);
+        });
+        Ok(Server { child, stdin, rx, served: 0 })
+    }
+    fn kill(mut self) {
+        let _ = self.child.kill();
+        let _ = self.child.wait();
+    }
+}
+
+pub struct Pool {
+    pub sets: Vec<ToggleSet>,
+    slots: Vec<std::sync::Mutex<Option<Server>>>,
+}
+
+impl Pool {
+    pub fn new(sets: Vec<ToggleSet>) -> Pool {
+        let slots = sets.iter().map(|_| std::sync::Mutex::new(None)).collect();
+        Pool { sets, slots }
+    }
+
+    /// Run `case_file` under the pool's toggle set `i`.
+    pub fn request(&self, i: usize, case_file: &Path) -> Result<WorkerOut, String> {
+        use std::io::Write;
+        let mut g = self.slots[i].lock().unwrap_or_else(|e| e.into_inner());
+        if g.as_ref().map(|s| s.served >= 150).unwrap_or(false) {
+            // bounded life: the JIT code arena of a process is never unmapped
+            if let Some(s) = g.take() {
+                s.kill();
+            }
+        }
+        if g.is_none() {
+            *g = Some(Server::spawn(&self.sets[i])?);
+        }
+        let s = g.as_mut().unwrap();
+        s.served += 1;
+        let sent = writeln!(s.stdin, "{}", case_file.display()).and_then(|_| s.stdin.flush());
+        if sent.is_err() {
+            if let Some(s) = g.take() {
+                s.kill();
+            }
+            return Err("server died".into());
+        }
+        let limit = worker_limit();
+        let start = Instant::now();
+        let mut lines: Vec<String> = vec![];
+        loop {
+            let left = limit.checked_sub(start.elapsed()).unwrap_or(Duration::ZERO);
+            match s.rx.recv_timeout(left) {
+                Ok(l) => {
+                    if l.starts_with(crate::worker::DONE_MARK) {
+                        break;
+                    }
+                    lines.push(l);
+                }
+                Err(e) => {
+                    if let Some(s) = g.take() {
+                        s.kill();
+                    }
+                    return Err(match e {
+                        std::sync::mpsc::RecvTimeoutError::Timeout => "timeout".into(),
+                        _ => "server died".into(),
+                    });
+                }
+            }
+        }
+        drop(g);
+        parse_worker_output(lines.iter().map(|s| s.as_str()))
+    }
+
+    pub fn shutdown(&self) {
+        for sl in &self.slots {
+            let mut g = sl.lock().unwrap_or_else(|e| e.into_inner());
+            if let Some(s) = g.take() {
+                let Server { mut child, stdin, .. } = s;
+                drop(stdin);
+                let t0 = Instant::now();
+                loop {
+                    match child.try_wait() {
+                        Ok(Some(_)) => break,
+                        Ok(None) if t0.elapsed() < Duration::from_secs(5) => std::thread::sleep(Duration::from_millis(5)),
+                        _ => {
+                            let _ = child.kill();
+                            let _ = child.wait();
+                            break;
+                        }
+                    }
+                }
+            }
         }
     }
-    match result {
-        Some(result) => Ok(WorkerOut { result, clif }),
-        None => Err("worker printed no result".into()),
-    }
+}
+
+/// The fixed toggle sets: baseline first.
+pub fn fixed_sets() -> Vec<ToggleSet> {
+    let mut sets = vec![ToggleSet::baseline()];
+    sets.extend((0..TOGGLES.len()).map(ToggleSet::single));
+    sets.push(ToggleSet::all_off());
+    sets.push(ToggleSet::all_on());
+    sets
 }
 
 // ----------------------------------------------------------------------
@@ -169,7 +315,8 @@ pub struct Case {
     pub classes: BTreeSet<String>,
     pub excluded: BTreeMap<String, u64>,
     pub engines: Vec<String>,
-    pub subsets: Vec<ToggleSet>,
+    /// indices into the run's table of drawn toggle subsets
+    pub subsets: Vec<usize>,
 }
 
 fn cc_ok() -> bool {
@@ -181,8 +328,7 @@ fn pick_shapes(d: &mut Draw, n: usize, allow_cone: bool) -> Vec<&'static str> {
     let mut v = vec![];
     for _ in 0..n {
         // the last entry of SHAPES is the (large) cone template
-        let k = shapes::SHAPES.len() - 1;
-        let s = shapes::SHAPES[d.below(k as u32) as usize];
+        let s = shapes::SHAPES[d.weighted(&[3, 2, 2, 2, 3, 2, 3, 3, 2, 2])];
         v.push(s);
     }
     if allow_cone && d.chance(1, 14) {
@@ -195,7 +341,7 @@ fn pick_shapes(d: &mut Draw, n: usize, allow_cone: bool) -> Vec<&'static str> {
     v
 }
 
-pub fn gen_case(d: &mut Draw, n_subsets: usize) -> Case {
+pub fn gen_case(d: &mut Draw, n_subsets: usize, n_table: usize) -> Case {
     let mut classes: BTreeSet<String> = BTreeSet::new();
     let mut excluded: BTreeMap<String, u64> = BTreeMap::new();
     let mode = d.weighted(&[3, 4, 4]);
@@ -286,7 +432,7 @@ pub fn gen_case(d: &mut Draw, n_subsets: usize) -> Case {
     if cc_ok() && d.chance(1, 8) {
         engines.push("cc".to_string());
     }
-    let subsets = (0..n_subsets).map(|_| ToggleSet::draw(d)).collect();
+    let subsets = (0..n_subsets).map(|_| d.below(n_table.max(1) as u32) as usize).collect();
     for e in &engines {
         classes.insert(format!("engine:{e}"));
     }
@@ -413,7 +559,7 @@ fn summary_of(w: &WorkerOut) -> Value {
     json!({"ir": w.result["sum"], "clif": w.clif})
 }
 
-fn case_json(text: &str, stim: &Stimulus, engines: &[String], tb: Option<&str>, summary: bool) -> Value {
+fn case_json(text: &str, stim: &Stimulus, engines: &[String], tb: Option<&str>, summary: &str) -> Value {
     json!({"veryl": text, "top": "Top", "stimulus": stim_json(stim), "engines": engines, "tb": tb, "summary": summary})
 }
 
@@ -425,7 +571,7 @@ fn write_case(dir: &Path, name: &str, v: &Value) -> PathBuf {
 
 /// Re-run baseline and `set` alone on (text, stim, engine): the difference of kind `what`, if it is there.
 fn rerun_pair(dir: &Path, tag: &str, text: &str, stim: &Stimulus, engine: &str, tb: Option<&str>, set: &ToggleSet, what: &str) -> Option<Diff> {
-    let f = write_case(dir, &format!("{tag}.json"), &case_json(text, stim, &[engine.to_string()], tb, false));
+    let f = write_case(dir, &format!("{tag}.json"), &case_json(text, stim, &[engine.to_string()], tb, "none"));
     let b = run_worker(&f, &ToggleSet::baseline()).ok()?;
     let o = run_worker(&f, set).ok()?;
     if b.result["analyze"] != "ok" || o.result["analyze"] != "ok" {
@@ -444,30 +590,169 @@ fn pass_names(set_off: &[usize]) -> String {
     p.join("+")
 }
 
-pub struct Tb {
-    pub name: String,
+/// Shared state of one run of the check.
+pub struct Run<'a> {
+    pub ctx: &'a Ctx,
+    pub pool: Pool,
+    /// signature → minimised failure (a root cause is minimised once per run)
+    pub cache: std::sync::Mutex<BTreeMap<String, (String, Value)>>,
+    pub n_subsets: usize,
+    /// the pool's sets from this index on are the run's table of drawn subsets
+    pub first_subset: usize,
+    pub n_table: usize,
+    pub ticket: std::sync::atomic::AtomicUsize,
 }
+
+/// Known finding `dead_var_dce:port-value+needs[comb_fusion]`: with
+/// `VERYL_DEAD_VAR_DCE=0` the protect set that comb fusion uses as its list of
+/// externally visible variables is empty (`ir/module.rs`: `dce_protect` is only
+/// filled `if dead_var_dce::enabled()`), so fusion retires the storage of a
+/// *port* of the top module that has a reader inside the module, and
+/// `Simulator::get` of that port returns the stale initial value.
+/// Shape: an output port of the top module that is read inside the module.
+pub fn top_output_read_inside(design: &Design) -> bool {
+    let m = design.top();
+    let outs: BTreeSet<DeclId> = m.outputs().into_iter().collect();
+    let mut hit = false;
+    let mut visit = |e: &Expr| {
+        findings::walk(m, e, 1, &mut |_, n| {
+            if let Expr::Ref(r) = n.e
+                && outs.contains(&r.decl)
+            {
+                hit = true;
+            }
+        });
+    };
+    fn stmts(ss: &[Stmt], f: &mut dyn FnMut(&Expr)) {
+        for s in ss {
+            match s {
+                Stmt::Assign { lhs, op, rhs } => {
+                    f(rhs);
+                    if !matches!(op, AssignOp::Set) {
+                        f(&Expr::Ref(lhs.clone()));
+                    }
+                    ref_reads(lhs, f);
+                }
+                Stmt::AssignConcat { lhs, rhs } => {
+                    f(rhs);
+                    for l in lhs {
+                        ref_reads(l, f);
+                    }
+                }
+                Stmt::If { cond, then, els } => {
+                    f(cond);
+                    stmts(then, f);
+                    stmts(els, f);
+                }
+                Stmt::Case { sel, arms, default } => {
+                    f(sel);
+                    for (_, b) in arms {
+                        stmts(b, f);
+                    }
+                    if let Some(d) = default {
+                        stmts(d, f);
+                    }
+                }
+                Stmt::Switch { arms, default } => {
+                    for (cs, b) in arms {
+                        for c in cs {
+                            f(c);
+                        }
+                        stmts(b, f);
+                    }
+                    if let Some(d) = default {
+                        stmts(d, f);
+                    }
+                }
+                Stmt::For { body, break_if, .. } => {
+                    if let Some(b) = break_if {
+                        f(b);
+                    }
+                    stmts(body, f);
+                }
+                Stmt::Display { args, .. } => {
+                    for a in args {
+                        f(a);
+                    }
+                }
+                Stmt::Return(e) => f(e),
+            }
+        }
+    }
+    /// index expressions of a destination are reads
+    fn ref_reads(r: &Ref, f: &mut dyn FnMut(&Expr)) {
+        if let Some(i) = &r.idx {
+            f(i);
+        }
+        match &r.sel {
+            Sel::BitD(e) | Sel::PlusC(e, _) | Sel::MinusC(e, _) | Sel::Step(e, _) => f(e),
+            _ => {}
+        }
+    }
+    for it in &m.items {
+        match it {
+            Item::Assign { lhs, rhs } => {
+                visit(rhs);
+                ref_reads(lhs, &mut visit);
+            }
+            Item::Let { rhs, .. } => visit(rhs),
+            Item::AlwaysComb(b) => stmts(b, &mut visit),
+            Item::AlwaysFf { reset, body, .. } => {
+                stmts(reset, &mut visit);
+                stmts(body, &mut visit);
+            }
+            Item::Inst { conns, .. } => {
+                for (_, c) in conns {
+                    if let Conn::In(e) = c {
+                        visit(e);
+                    }
+                }
+            }
+        }
+    }
+    for f in &m.funcs {
+        stmts(&f.body, &mut visit);
+    }
+    hit
+}
+
+const DCE: usize = 6; // index of `dce` in TOGGLES (checked in `run`)
 
 /// The verdict of one case.
-pub fn one_case(ctx: &Ctx, d: &mut Draw, n_subsets: usize) -> Outcome {
-    let case = gen_case(d, n_subsets);
-    evaluate(ctx, &case)
+pub fn one_case(run: &Run, d: &mut Draw) -> Outcome {
+    let mut case = gen_case(d, run.n_subsets, run.n_table);
+    // exclusion of the known-finding shape: keep it on 1 case in 12
+    let mut dce_excluded = false;
+    if top_output_read_inside(&case.design) {
+        case.classes.insert("known_shape:top_output_read_inside".into());
+        if !d.chance(1, 12) {
+            dce_excluded = true;
+            case.classes.insert("excluded:dce_off_on_top_output_read_inside".into());
+        }
+    }
+    evaluate(run, &case, dce_excluded)
 }
 
-pub fn evaluate(ctx: &Ctx, case: &Case) -> Outcome {
+pub fn evaluate(run: &Run, case: &Case, dce_excluded: bool) -> Outcome {
+    let ctx = run.ctx;
     let text = print_design(&case.design);
     let stim = &case.stim;
     if std::env::var("C03_DUMP").is_ok() {
         println!("{text}// stimulus: {}\n// engines: {:?}", stim_json(stim), case.engines);
     }
     let sc = vcore::util::Scratch::new("c03");
-    let all = write_case(&sc.path, "case.json", &case_json(&text, stim, &case.engines, None, true));
-    // Cranelift-level switches cannot act on the interpreter
+    // what a worker is asked for: the baseline gives both summaries, a
+    // switch that rewrites the IR / the event statements the IR summary, a
+    // switch inside the code generator the Cranelift one (and only the engines
+    // that generate code), the multi-switch sets none
+    let all = write_case(&sc.path, "case.json", &case_json(&text, stim, &case.engines, None, "both"));
+    let ir_file = write_case(&sc.path, "case-ir.json", &case_json(&text, stim, &case.engines, None, "ir"));
+    let plain_file = write_case(&sc.path, "case-plain.json", &case_json(&text, stim, &case.engines, None, "none"));
     let clif_engines: Vec<String> = case.engines.iter().filter(|e| !e.starts_with("interp")).cloned().collect();
-    let clif_file = write_case(&sc.path, "case-clif.json", &case_json(&text, stim, &clif_engines, None, true));
+    let clif_file = write_case(&sc.path, "case-clif.json", &case_json(&text, stim, &clif_engines, None, "clif"));
 
     // ---- baseline
-    let base = match run_worker(&all, &ToggleSet::baseline()) {
+    let base = match run.pool.request(0, &all) {
         Ok(b) => b,
         Err(e) => {
             ctx.note_add("inconclusive/baseline_worker_failed", 1);
@@ -491,22 +776,46 @@ pub fn evaluate(ctx: &Ctx, case: &Case) -> Outcome {
     }
     let base_sum = summary_of(&base);
 
-    // ---- every toggle set
-    let mut sets: Vec<ToggleSet> = (0..TOGGLES.len()).map(ToggleSet::single).collect();
-    sets.push(ToggleSet::all_off());
-    sets.push(ToggleSet::all_on());
-    sets.extend(case.subsets.iter().cloned());
+    // ---- every toggle set: the pool's fixed ones (in an order rotated per
+    // case, so that concurrent cases do not queue at the same server), then
+    // the drawn subsets in one-shot processes
+    let n_fixed = run.first_subset;
+    let rot = run.ticket.fetch_add(1, std::sync::atomic::Ordering::Relaxed);
+    let mut order: Vec<(Option<usize>, ToggleSet)> = (1..n_fixed).map(|k| 1 + (k - 1 + rot) % (n_fixed - 1)).map(|i| (Some(i), run.pool.sets[i].clone())).collect();
+    for &k in &case.subsets {
+        let i = run.first_subset + k % run.n_table.max(1);
+        let s = run.pool.sets[i].clone();
+        if dce_excluded && s.off.contains(&DCE) && !s.off.contains(&0) {
+            continue;
+        }
+        order.push((Some(i), s));
+    }
     let mut diffs: Vec<(ToggleSet, Diff)> = vec![];
     let mut effects: BTreeSet<usize> = BTreeSet::new();
     let mut inconclusive = 0u64;
     let mut comparisons = 0u64;
     let mut error_diffs = 0u64;
-    for set in &sets {
-        let clif_only = set.off.len() == 1 && TOGGLES[set.off[0]].level == Level::Clif;
+    for (slot, set) in &order {
+        let single = set.off.len() == 1 && !set.explicit;
+        let clif_only = single && TOGGLES[set.off[0]].level == Level::Clif;
         if clif_only && clif_engines.is_empty() {
             continue;
         }
-        let w = match run_worker(if clif_only { &clif_file } else { &all }, set) {
+        if dce_excluded && single && set.off[0] == DCE {
+            continue;
+        }
+        let file = if clif_only {
+            &clif_file
+        } else if single || set.label == "all_on" {
+            &ir_file
+        } else {
+            &plain_file
+        };
+        let r = match slot {
+            Some(i) => run.pool.request(*i, file),
+            None => run_worker(file, set),
+        };
+        let w = match r {
             Ok(w) => w,
             Err(_) => {
                 inconclusive += 1;
@@ -528,13 +837,13 @@ pub fn evaluate(ctx: &Ctx, case: &Case) -> Outcome {
             }
             diffs.push((set.clone(), df));
         }
-        if set.off.len() == 1 && !set.explicit {
+        if single {
             let s = summary_of(&w);
-            let differs = if clif_only { s["clif"] != base_sum["clif"] } else { s != base_sum };
+            let differs = if clif_only { s["clif"] != base_sum["clif"] } else { s["ir"] != base_sum["ir"] };
             if differs {
                 effects.insert(set.off[0]);
             }
-        } else if set.label == "all_on" && summary_of(&w) != base_sum {
+        } else if set.label == "all_on" && summary_of(&w)["ir"] != base_sum["ir"] {
             // the summary must be a function of the switches only
             ctx.note_add("self_test/summary_differs_without_a_switch", 1);
         }
@@ -563,7 +872,7 @@ pub fn evaluate(ctx: &Ctx, case: &Case) -> Outcome {
                 classes.push(format!("excluded:{k}"));
             }
         }
-        if case.design.top().has_ff() || case.design.modules.iter().any(|m| m.has_ff()) {
+        if case.design.modules.iter().any(|m| m.has_ff()) {
             classes.push("design:sequential".into());
         }
         if ok_engines.iter().any(|e| !base.result["runs"][e]["display"].as_str().unwrap_or("").is_empty()) {
@@ -582,7 +891,6 @@ pub fn evaluate(ctx: &Ctx, case: &Case) -> Outcome {
     }
     // smallest responsible subset of switches
     let mut culprit: Vec<usize> = set.off.clone();
-    let explicit = set.explicit;
     if culprit.len() > 1 {
         if let Some(&single) = culprit.iter().find(|&&i| rerun_pair(&sc.path, "attr", &text, stim, &df.engine, tb, &ToggleSet::single(i), &df.what).is_some()) {
             culprit = vec![single];
@@ -601,11 +909,39 @@ pub fn evaluate(ctx: &Ctx, case: &Case) -> Outcome {
     }
     let cset = if culprit.is_empty() {
         ToggleSet::all_on()
-    } else if culprit.len() == 1 && !explicit {
+    } else if culprit.len() == 1 {
         ToggleSet::single(culprit[0])
     } else {
         ToggleSet::subset(culprit.clone(), false)
     };
+    if culprit.is_empty() && rerun_pair(&sc.path, "attr", &text, stim, &df.engine, tb, &cset, &df.what).is_none() {
+        ctx.note_add("inconclusive/difference_not_attributed", 1);
+        return Outcome::skip("inconclusive: a difference under a subset with explicit defaults could not be attributed");
+    }
+    // which other passes must be ON for the difference to appear (root-cause hint)
+    let mut needs: Vec<&str> = vec![];
+    for (i, t) in TOGGLES.iter().enumerate() {
+        if !matches!(t.name, "fusion" | "dce" | "vsplit" | "lane" | "layout" | "cone_gate") || culprit.contains(&i) {
+            continue;
+        }
+        let mut off = culprit.clone();
+        off.push(i);
+        off.sort();
+        if rerun_pair(&sc.path, "need", &text, stim, &df.engine, tb, &ToggleSet::subset(off, false), &df.what).is_none() {
+            needs.push(t.pass);
+        }
+    }
+    let pass = if culprit.is_empty() { "explicit_defaults".to_string() } else { pass_names(&culprit) };
+    let mut sig = format!("{pass}:{}", df.what);
+    if !needs.is_empty() {
+        sig.push_str(&format!("+needs[{}]", needs.join(",")));
+    }
+    if culprit.iter().all(|&i| TOGGLES[i].level == Level::Clif) && !culprit.is_empty() {
+        sig.push_str(&format!("/{}", engine_family(&df.engine)));
+    }
+    if let Some((msg, input)) = run.cache.lock().unwrap().get(&sig).cloned() {
+        return Outcome::fail(sig, msg, input);
+    }
     let budget = std::env::var("C03_MIN_BUDGET").ok().and_then(|s| s.parse().ok()).unwrap_or(150usize);
     let mut n = 0;
     let mut pred = |dsg: &Design, st: &Stimulus| {
@@ -619,23 +955,20 @@ pub fn evaluate(ctx: &Ctx, case: &Case) -> Outcome {
         ctx.note_add("inconclusive/difference_not_reproduced", 1);
         return Outcome::skip("inconclusive: a difference did not reproduce on the minimised design");
     };
-    let pass = if culprit.is_empty() { "explicit_defaults".to_string() } else { pass_names(&culprit) };
-    let sig = format!("{pass}:{}/{}", df.what, engine_family(&df.engine));
     let msg = format!(
-        "switching optimisations changes observable behaviour\n  engine: {}\n  environment: {}  (against: no VERYL_* variable set)\n  found under toggle set: {}\n  {}\n{mtext}// stimulus: {}",
+        "switching optimisations changes observable behaviour\n  engine: {}\n  environment: {}  (against: no VERYL_* variable set)\n  found under toggle set: {}\n  the difference disappears when these passes are switched off as well: {:?}\n  {}\n{mtext}// stimulus: {}",
         df.engine,
         cset.env_text(),
         set.label,
+        needs,
         mdf.detail,
         stim_json(&ms)
     );
-    Outcome::fail(
-        sig,
-        msg,
-        json!({"veryl": mtext, "top": "Top", "stimulus": stim_json(&ms), "engine": df.engine,
+    let input = json!({"veryl": mtext, "top": "Top", "stimulus": stim_json(&ms), "engine": df.engine,
                "env": cset.env().iter().map(|(k, v)| format!("{k}={v}")).collect::<Vec<_>>(),
-               "what": df.what, "detail": mdf.detail, "found_under": set.label}),
-    )
+               "what": df.what, "detail": mdf.detail, "found_under": set.label, "signature": sig});
+    run.cache.lock().unwrap().insert(sig.clone(), (msg.clone(), input.clone()));
+    Outcome::fail(sig, msg, input)
 }
 
 /// Replay of a recorded reproducer (text + stimulus + engine + env).
@@ -657,7 +990,7 @@ fn replay_recorded(p: &Value) -> Outcome {
     let sc = vcore::util::Scratch::new("c03r");
     match rerun_pair(&sc.path, "rec", &text, &stim, &engine, None, &set, &what) {
         Some(df) => Outcome::fail(
-            format!("{}:{}/{}", pass_names(&off), what, engine_family(&engine)),
+            p["signature"].as_str().map(|s| s.to_string()).unwrap_or_else(|| format!("{}:{}", pass_names(&off), what)),
             format!("recorded reproducer still differs\n  engine: {engine}\n  environment: {}\n  {}\n{text}", set.env_text(), df.detail),
             p.clone(),
         ),
@@ -666,14 +999,47 @@ fn replay_recorded(p: &Value) -> Outcome {
 }
 
 pub fn run(ctx: &Ctx) {
+    assert_eq!(TOGGLES[DCE].name, "dce");
+    assert_eq!(TOGGLES[0].name, "fusion");
     let _ = std::fs::create_dir_all(aot_dir());
     ctx.note("switches", json!(TOGGLES.iter().map(|t| format!("{}={} ({})", t.env, t.off, t.pass)).collect::<Vec<_>>()));
     ctx.run_payloads("recorded", replay_recorded);
     let n = std::env::var("C03_CASES").ok().and_then(|s| s.parse::<usize>().ok()).unwrap_or(ctx.scale(160, 3000));
-    let k = ctx.scale(2, 4);
     let threads = std::env::var("C03_THREADS").ok().and_then(|s| s.parse::<usize>().ok()).unwrap_or(0);
     let cfg = CaseCfg::cases(n).choices(10_000).shrink_iters(std::env::var("C03_SHRINK").ok().and_then(|s| s.parse().ok()).unwrap_or(6)).timeout_s(1500).threads(threads);
-    ctx.run("designs", cfg, |d| one_case(ctx, d, k));
+    // the run's table of toggle subsets: drawn from a choice sequence seeded
+    // by VERIF_SEED; a case draws indices into it (index 0 when its own
+    // sequence is exhausted), so that the subset workers can be long-lived
+    let mut sets = fixed_sets();
+    let first_subset = sets.len();
+    let n_table = std::env::var("C03_SUBSETS").ok().and_then(|s| s.parse::<usize>().ok()).unwrap_or(ctx.scale(12, 48));
+    {
+        let mut x = (ctx.seed ^ 0xC03).wrapping_mul(0x9E3779B97F4A7C15) | 1;
+        let choices: Vec<u32> = (0..(n_table * (TOGGLES.len() + 4)))
+            .map(|_| {
+                x ^= x << 13;
+                x ^= x >> 7;
+                x ^= x << 17;
+                (x >> 16) as u32
+            })
+            .collect();
+        let mut sd = Draw::new(choices);
+        for _ in 0..n_table {
+            sets.push(ToggleSet::draw(&mut sd));
+        }
+    }
+    ctx.note("subset_table", json!(sets[first_subset..].iter().map(|s| s.label.clone()).collect::<Vec<_>>()));
+    let run = Run {
+        ctx,
+        pool: Pool::new(sets),
+        cache: std::sync::Mutex::new(BTreeMap::new()),
+        n_subsets: ctx.scale(2, 4),
+        first_subset,
+        n_table,
+        ticket: std::sync::atomic::AtomicUsize::new(0),
+    };
+    ctx.run("designs", cfg, |d| one_case(&run, d));
+    run.pool.shutdown();
     let _ = std::fs::remove_dir_all(aot_dir());
     ctx.assume("a worker process that crashes or exceeds its time limit, an engine that fails to build / panics under one toggle set only, and a difference that does not reproduce when the two toggle sets are re-run alone are inconclusive (counted under inconclusive/*), never violations");
     ctx.assume("values of internal variables (Simulator::get_var) are not compared: fused and dead variables legitimately keep stale storage; the property speaks of ports, $display and verdicts");
@@ -682,4 +1048,42 @@ pub fn run(ctx: &Ctx) {
         "exploration",
         "generic vdesign designs and pass-triggering shape templates (single-reader chains, cheap multi-reader / CSE, field stores, dead variables, always_comb version chains, >= 8-arm selector decoders, per-bit rows and lanes, >= 4-arm case/switch/else-if, guarded $display in always_ff, repeated loads, >= 300-statement cones; flat, added to a generic top, or in 1-2 child instances) x stimulus of 6-14 cycles after a reset window; one worker process per toggle set (baseline, each switch alone, all off, all on, k drawn subsets) on interpreter and JIT (4-state / noffopt / cc variants on a fraction); non-trivial = the structural summary of the built IR (optimised ProtoModule statements, buffer sizes, comb passes, fused offsets, cone segments, Cranelift opcode histogram) of some single-switch worker differs from the baseline's, i.e. the pass fired on that design; distinct by text + stimulus",
     );
+}
+
+/// Development aid: `vc-opt c03-dev <shape,shape,..> <seed> <flat|child> <out.json>`
+/// writes a case file of the given shapes and prints the design.
+pub fn dev(args: &[String]) -> i32 {
+    let shapes_arg = args.first().cloned().unwrap_or_default();
+    let seed: u64 = args.get(1).and_then(|s| s.parse().ok()).unwrap_or(1);
+    let child = args.get(2).map(|s| s == "child").unwrap_or(false);
+    let out = args.get(3).cloned().unwrap_or_else(|| "/verif/.work/a-opt-dev/dev.json".into());
+    let mut x = seed.wrapping_mul(0x9E3779B97F4A7C15) | 1;
+    let choices: Vec<u32> = (0..20000)
+        .map(|_| {
+            x ^= x << 13;
+            x ^= x >> 7;
+            x ^= x << 17;
+            (x >> 16) as u32
+        })
+        .collect();
+    let mut d = Draw::new(choices);
+    let mut sb = Sb::new(
+        Module {
+            name: if child { "Shp".into() } else { "Top".into() },
+            ..Default::default()
+        },
+        child,
+    );
+    sb.ensure_inputs(&mut d, 3);
+    for s in shapes_arg.split(',') {
+        shapes::apply(&mut sb, &mut d, s);
+    }
+    let (m, classes) = sb.finish();
+    let design = if child { shapes::wrap(&mut d, m, 1) } else { Design { modules: vec![m], top: 0 } };
+    let stim = gen_stimulus(&mut d, &design, 8);
+    let text = print_design(&design);
+    println!("{text}// classes: {classes:?}");
+    let engines = vec!["interp".to_string(), "jit".to_string()];
+    std::fs::write(&out, case_json(&text, &stim, &engines, None, "both").to_string()).expect("write");
+    0
 }
